@@ -2,7 +2,6 @@ package model
 
 import (
 	"fmt"
-	"math"
 	"math/big"
 	"reflect"
 	"regexp"
@@ -65,7 +64,16 @@ type Match struct {
 	Sel []string
 	Op  int
 	Lit string
+	JP  bool // render the selector in JSON-pointer spelling (semantics unchanged)
+	// Style of the literal: 0 backtick (double-quoted when a backtick or CR occurs), 1 double-quoted, 2 bare
+	Style int
 }
+
+const (
+	StyleBacktick = iota
+	StyleQuoted
+	StyleBare
+)
 type Not struct{ X any }
 type Bin struct {
 	Or   bool
@@ -85,6 +93,7 @@ type Quant struct {
 	Mode     int
 	Idx, Val string // Default mode uses Val as the name
 	Body     any
+	JP       bool // render the collection selector in JSON-pointer spelling
 }
 
 // hook family (written in the idiom of the repository's own tests)
@@ -386,23 +395,17 @@ func compareLit(n *Node, lit string) (bool, int) {
 		}
 		return z.Uint64() == n.U, cOK
 	case k == KFloat32:
-		f, err := strconv.ParseFloat(lit, 32)
-		if err != nil {
-			if ne, ok := err.(*strconv.NumError); ok && ne.Err == strconv.ErrRange {
-				return false, cRange
-			}
-			return false, cSyntax
+		f, st := RefParseFloat(lit, 32)
+		if st != cOK {
+			return false, st
 		}
 		return float32(f) == float32(n.F), cOK
 	case k == KFloat64:
-		f, err := strconv.ParseFloat(lit, 64)
-		if err != nil {
-			if ne, ok := err.(*strconv.NumError); ok && ne.Err == strconv.ErrRange {
-				return false, cRange
-			}
-			return false, cSyntax
+		f, st := RefParseFloat(lit, 64)
+		if st != cOK {
+			return false, st
 		}
-		return f == n.F && !math.IsNaN(f), cOK
+		return f == n.F, cOK
 	case k.isStr():
 		return n.S == lit, cOK
 	}
